@@ -290,8 +290,10 @@ func entityID(style int, prefix string, i int, base int) string {
 	return fmt.Sprintf("%s%d", prefix, i)
 }
 
-// idSeps: characters implementations like to join ids with when they build composite keys.
-var idSeps = []string{"|", ",", ":", "/", "-", "_", "\x00", "", "\t", ";"}
+// idSeps: characters implementations like to join ids with when they build composite keys. No white space: an id
+// with white space at its edge is only distinct from its trimmed form for a parser that does not trim, and whether
+// the parser trims is not the business of the properties that use these ids.
+var idSeps = []string{"|", ",", ":", "/", "-", "_", "\x00", "", ";", "."}
 
 // sepID spells ids that contain the separator. Every table uses the same fragments, so that two pairs of ids
 // from two tables can join to the same text in different ways ("a|b" + "|" + "c" == "a" + "|" + "b|c"): a
